@@ -44,6 +44,10 @@ def run_cache_property(prop, tier, seed, mcs, fams, nquick, nthorough, level, ru
         famres.append({k: r[k] for k in ("family", "behaviours", "lines", "consumed", "driver_s", "tlc_s")})
         for p in r["problems"]:
             if prop in p["props"]:
+                if not confirmed(f, p, prop):
+                    notes.append("family %s: a mismatch at line %d (%s) did not reproduce when its behaviour was replayed alone; not counted" %
+                                 (f["name"], p["line"], ",".join(p["cats"])))
+                    continue
                 path = vlib.save_replay(prop, "%s-%s-seed%d.json" % (f["name"], vlib.digest(p["replay_input"]), seed),
                                         {"kind": "cachedrv", "problem": {k: p.get(k) for k in ("props", "cats", "line", "event", "context", "model", "goroutines")},
                                          "input": p["replay_input"]})
@@ -51,6 +55,10 @@ def run_cache_property(prop, tier, seed, mcs, fams, nquick, nthorough, level, ru
             else:
                 notes.append("family %s: first mismatch at line %d concerns %s (%s), not %s; lines after it were not judged" %
                              (f["name"], p["line"], ",".join(p["props"]), ",".join(p["cats"]), prop))
+                if os.environ.get("VERIF_KEEP_NOTES"):
+                    vlib.save_replay("_notes", "%s-%s-%s.json" % (prop, f["name"], vlib.digest(p["replay_input"])),
+                                     {"kind": "cachedrv", "problem": {k: p.get(k) for k in ("props", "cats", "line", "event", "context", "model")},
+                                      "input": p["replay_input"]})
     trapres = []
     if traps is None:
         import importlib
@@ -68,6 +76,10 @@ def run_cache_property(prop, tier, seed, mcs, fams, nquick, nthorough, level, ru
                         "lines": r["lines"], "consumed": r["consumed"]})
         for p in r["problems"]:
             if prop in p["props"]:
+                if not confirmed(tf, p, prop):
+                    notes.append("trap family %s: a mismatch at line %d (%s) did not reproduce when replayed alone; not counted" %
+                                 (tf["name"], p["line"], ",".join(p["cats"])))
+                    continue
                 path = vlib.save_replay(prop, "%s-%s-seed%d.json" % (tf["name"], vlib.digest(p["replay_input"]), seed),
                                         {"kind": "cachedrv", "problem": {k: p.get(k) for k in ("props", "cats", "line", "event", "context", "model", "goroutines")},
                                          "input": p["replay_input"]})
@@ -95,6 +107,19 @@ def run_cache_property(prop, tier, seed, mcs, fams, nquick, nthorough, level, ru
         print("NOTE " + nline)
     vlib.write_evidence(prop, tier, level, cov, time.time() - t0, len(viol), assumptions)
     return viol
+
+
+def confirmed(fam, p, prop):
+    """A mismatch counts only if the same behaviour, replayed alone, shows a mismatch for the property again
+    (at least once in two tries): a one-off is a scheduling artefact of the harness, not a verdict."""
+    for _ in range(2):
+        try:
+            r = cachefam.replay_and_validate(fam, p["replay_input"]["behaviours"], inp=dict(p["replay_input"]))
+        except vlib.Inconclusive:
+            continue
+        if any(prop in q["props"] for q in r["problems"]):
+            return True
+    return False
 
 
 def replay_file(prop, path):
